@@ -101,6 +101,18 @@ func cmdCheck(repo, verif string, args []string) int {
 		}
 		cr.obligs = append(cr.obligs, r.Obligs...)
 	}
+	for _, l := range p.contracts.Lemmas {
+		for _, pr := range l.Props {
+			if pr == prop {
+				r := p.verifyLemma(l)
+				cr.funcs = append(cr.funcs, r)
+				if r.Err != "" {
+					cr.obligs = append(cr.obligs, &Obligation{Name: r.Key + "#translate", Kind: "translate", Fn: r.Key, Status: "untranslatable", RawOut: r.Err, Desc: "lemma cannot be stated: " + r.Err, vc: r.VC})
+				}
+				cr.obligs = append(cr.obligs, r.Obligs...)
+			}
+		}
+	}
 	if len(cr.funcs) == 0 {
 		fmt.Fprintf(os.Stderr, "govc: none of the %d contracts of %s matches a function\n", len(ids), prop)
 		return 2
